@@ -45,6 +45,13 @@ MOp(m, a, b) == CASE m = "prod" -> a * b [] m = "max" -> (IF a > b THEN a ELSE b
 RECURSIVE FoldL(_,_,_)
 FoldL(m, a, s) == IF s = <<>> THEN a ELSE FoldL(m, MOp(m, a, Head(s)), Tail(s))
 
+RECURSIVE UnfoldSeq(_,_,_,_,_)
+\* the first n values of seed, f(seed), ...; a failing step of the harness returns (seed + 100, error): under Lift the stream
+\* ends with the seed on which f failed, under Try it goes on from the returned value (no gap, no repeat)
+UnfoldSeq(step, mode, fail, s, n) ==
+  IF n = 0 THEN <<>> ELSE
+  IF mode # "pure" /\ s \in fail THEN (IF mode = "lift" THEN <<s>> ELSE <<s>> \o UnfoldSeq(step, mode, fail, s + 100, n - 1))
+  ELSE <<s>> \o UnfoldSeq(step, mode, fail, StepFn(step, s), n - 1)
 (* ------------------------------------------------------------------------------------ list images *)
 RECURSIVE MapL(_), FMapL(_), UpToFirstFail(_,_), TakeWhileL(_,_)
 MapL(s) == IF s = <<>> THEN <<>> ELSE <<F(Head(s))>> \o MapL(Tail(s))
@@ -162,16 +169,27 @@ PipeParallel(cfg) == \E i \in 1..Len(cfg.stages) : Parallel(cfg.stages[i])
 PipeMonotone(cfg) == \A i \in 1..Len(cfg.stages) : cfg.stages[i].kind # "Fold"
 \* a stage that may stop before its input ends leaves the stages before it blocked until the context is cancelled
 PipeStopsEarly(cfg) == \E i \in 1..Len(cfg.stages) : cfg.stages[i].kind \in {"Take", "TakeWhile"} \/ (cfg.stages[i].mode = "lift" /\ cfg.stages[i].fail # {})
+\* a pipeline fed by Unfold (no input channel; the README's quick example): 20 values of the generator are more than any
+\* configured Take / TakeWhile lets through, so the image of that prefix is the whole result
+PipeFed(cfg) == cfg.kind = "Pipeline" /\ cfg.inputs # <<>>
+PipeGenSrc(cfg) == UnfoldSeq(cfg.step, "pure", {}, cfg.seed, 20)
+PipeGen(cfg, obs) ==
+  (cfg.kind = "Pipeline" /\ ~PipeFed(cfg)) =>
+     /\ IF PipeParallel(cfg) THEN SubBag(obs.got["out"], PipeL(cfg.stages, 1, PipeGenSrc(cfg)))
+                             ELSE PipeMonotone(cfg) => IsPrefix(obs.got["out"], PipeL(cfg.stages, 1, PipeGenSrc(cfg)))
+     /\ (obs.seen["out"] /\ ~obs.cancelled) =>
+           IF PipeParallel(cfg) THEN BagEq(obs.got["out"], PipeL(cfg.stages, 1, PipeGenSrc(cfg)))
+                                ELSE obs.got["out"] = PipeL(cfg.stages, 1, PipeGenSrc(cfg))
 PipePrefix(cfg, obs) ==
-  (cfg.kind = "Pipeline" /\ PipeMonotone(cfg)) =>
+  (PipeFed(cfg) /\ PipeMonotone(cfg)) =>
      IF PipeParallel(cfg) THEN SubBag(obs.got["out"], PipeL(cfg.stages, 1, Offered(obs, 1)))
                           ELSE IsPrefix(obs.got["out"], PipeL(cfg.stages, 1, Offered(obs, 1)))
 PipeComplete(cfg, obs) ==
-  (cfg.kind = "Pipeline" /\ ~obs.cancelled /\ AllInClosed(obs) /\ obs.seen["out"]) =>
+  (PipeFed(cfg) /\ ~obs.cancelled /\ AllInClosed(obs) /\ obs.seen["out"]) =>
      IF PipeParallel(cfg) THEN BagEq(obs.got["out"], PipeL(cfg.stages, 1, obs.sent[1]))
                           ELSE obs.got["out"] = PipeL(cfg.stages, 1, obs.sent[1])
 PipeSettle(cfg, obs) ==
-  (cfg.kind = "Pipeline" /\ ~PipeStopsEarly(cfg) /\ obs.quiet /\ AllInClosed(obs) /\ obs.pending = 0 /\ Drained(obs)
+  (PipeFed(cfg) /\ ~PipeStopsEarly(cfg) /\ obs.quiet /\ AllInClosed(obs) /\ obs.pending = 0 /\ Drained(obs)
      /\ obs.now >= obs.lastEnvAt + 100) => (AllSeen(obs) /\ obs.live = 0)
 
 (* ==================================================================================== C08 the unbounded channel *)
@@ -182,13 +200,6 @@ NewSettle(cfg, obs) == cfg.kind = "New" => ~(obs.quiet /\ (obs.cancelled \/ obs.
 \* (the clean end of stream after close-by-sender is Complete + Settle1 + NoPanic)
 
 (* ==================================================================================== C11 Unfold / Emit *)
-RECURSIVE UnfoldSeq(_,_,_,_,_)
-\* the first n values of seed, f(seed), ...; a failing step of the harness returns (seed + 100, error): under Lift the stream
-\* ends with the seed on which f failed, under Try it goes on from the returned value (no gap, no repeat)
-UnfoldSeq(step, mode, fail, s, n) ==
-  IF n = 0 THEN <<>> ELSE
-  IF mode # "pure" /\ s \in fail THEN (IF mode = "lift" THEN <<s>> ELSE <<s>> \o UnfoldSeq(step, mode, fail, s + 100, n - 1))
-  ELSE <<s>> \o UnfoldSeq(step, mode, fail, StepFn(step, s), n - 1)
 RECURSIVE EmitIdx(_,_,_,_)
 \* indices 0.. whose value is delivered: the non-failing ones (Try), or those before the first failure (Lift)
 EmitIdx(cfg, i, n, lim) == IF n = 0 \/ i > lim THEN <<>> ELSE
@@ -256,7 +267,7 @@ Verdicts(cfg, obs) ==
   [Prefix |-> Prefix(cfg, obs), SeqExact |-> SeqExact(cfg, obs), FoldRes |-> FoldRes(cfg, obs), Complete |-> Complete(cfg, obs), TakeBound |-> TakeBound(cfg, obs),
    CallsPrefix |-> CallsPrefix(cfg, obs), CallsComplete |-> CallsComplete(cfg, obs), NoPanic |-> NoPanic(cfg, obs),
    Settle1 |-> Settle1(cfg, obs), Settle2 |-> Settle2(cfg, obs), LiftCloses |-> LiftCloses(cfg, obs),
-   PipePrefix |-> PipePrefix(cfg, obs), PipeComplete |-> PipeComplete(cfg, obs), PipeSettle |-> PipeSettle(cfg, obs),
+   PipePrefix |-> PipePrefix(cfg, obs), PipeComplete |-> PipeComplete(cfg, obs), PipeSettle |-> PipeSettle(cfg, obs), PipeGen |-> PipeGen(cfg, obs),
    NeverBlocksSender |-> NeverBlocksSender(cfg, obs), LosslessAfterCancel |-> LosslessAfterCancel(cfg, obs), NewSettle |-> NewSettle(cfg, obs),
    GenExact |-> GenExact(cfg, obs), EmitPaced |-> EmitPaced(cfg, obs), EmitKeepUp |-> EmitKeepUp(cfg, obs), GenSettle |-> GenSettle(cfg, obs),
    JoinPerInput |-> JoinPerInput(cfg, obs), JoinNothingInvented |-> JoinNothingInvented(cfg, obs), JoinComplete |-> JoinComplete(cfg, obs),
